@@ -928,6 +928,7 @@ def PathInv (g : Graph) (s : State) (v : Nat) : Prop :=
 /-- the part of the invariant that does not concern worker `w` itself (`w` is in the middle of a step and holds
 no mark) -/
 structure PInvO (g : Graph) (s : State) (w : Nat) : Prop where
+  wlen : s.workers.length = g.workers.length
   path : ∀ v, v ≠ w → v < s.workers.length → PathInv g s v
   markRel : ∀ n v, (s.nd n).started = some v → relevant g v n = true
   markPc : ∀ n v, (s.nd n).started = some v → v ≠ w ∧ ((s.wd v).pc.node? = some n ∨ (s.wd v).pc = .failed)
@@ -936,6 +937,7 @@ structure PInvO (g : Graph) (s : State) (w : Nat) : Prop where
 
 /-- the invariant between steps -/
 structure PInv (g : Graph) (s : State) : Prop where
+  wlen : s.workers.length = g.workers.length
   path : ∀ v, v < s.workers.length → PathInv g s v
   markRel : ∀ n v, (s.nd n).started = some v → relevant g v n = true
   markPc : ∀ n v, (s.nd n).started = some v → (s.wd v).pc.node? = some n ∨ (s.wd v).pc = .failed
@@ -963,7 +965,7 @@ theorem PInvO.transfer {g : Graph} {s s' : State} {w : Nat} (h : PInvO g s w)
     rcases hmarks n with h' | h'
     · rw [← h']; exact hs
     · rw [h'] at hs; cases hs
-  refine ⟨fun v hv hvl => ?_, fun n v hs => h.markRel n v (back n v hs), fun n v hs => ?_, fun v hv n hn => ?_⟩
+  refine ⟨hlen.trans h.wlen, fun v hv hvl => ?_, fun n v hs => h.markRel n v (back n v hs), fun n v hs => ?_, fun v hv n hn => ?_⟩
   · obtain ⟨hp, hpc⟩ := hoth v hv
     unfold PathInv
     rw [hp, hpc]
@@ -979,7 +981,7 @@ theorem PInvO.transfer {g : Graph} {s s' : State} {w : Nat} (h : PInvO g s w)
 
 theorem PInv.ofO {g : Graph} {s : State} {w : Nat} (h : PInvO g s w) (hp : w < s.workers.length → PathInv g s w)
     (hpc : (s.wd w).pc.node? = none) : PInv g s := by
-  refine ⟨fun v hv => ?_, h.markRel, fun n v hs => (h.markPc n v hs).2, fun v n hn => ?_⟩
+  refine ⟨h.wlen, fun v hv => ?_, h.markRel, fun n v hs => (h.markPc n v hs).2, fun v n hn => ?_⟩
   · by_cases hvw : v = w
     · subst hvw; exact hp hv
     · exact h.path v hvw hv
@@ -989,7 +991,7 @@ theorem PInv.ofO {g : Graph} {s : State} {w : Nat} (h : PInvO g s w) (hp : w < s
 
 theorem PInv.toO {g : Graph} {s : State} {w : Nat} (h : PInv g s) (hpc : (s.wd w).pc.node? = none)
     (hnf : (s.wd w).pc ≠ .failed) : PInvO g s w := by
-  refine ⟨fun v _ hv => h.path v hv, h.markRel, fun n v hs => ⟨?_, h.markPc n v hs⟩, fun v _ n hn => h.testOwn v n hn⟩
+  refine ⟨h.wlen, fun v _ hv => h.path v hv, h.markRel, fun n v hs => ⟨?_, h.markPc n v hs⟩, fun v _ n hn => h.testOwn v n hn⟩
   intro hvw
   subst hvw
   rcases h.markPc n v hs with h' | h'
@@ -1024,7 +1026,7 @@ theorem PInvO.enter {g : Graph} {s s' : State} {w next : Nat} (h : PInvO g s w)
     (hpc : (s'.wd w).pc = .failed ∨ ((s'.wd w).pc.node? = some next ∧ g.idIn w next = true)) : PInv g s' := by
   have hrel : relevant g w next = true := (hp.last_two (by omega) next hlast).2
   have hhid : ∀ x, x ∈ s'.hidden → x ∈ s.hidden := by intro x hx; rw [← he.hidden]; exact hx
-  refine ⟨fun v hv => ?_, fun n v hs => ?_, fun n v hs => ?_, fun v n hn => ?_⟩
+  refine ⟨he.workersLen.trans h.wlen, fun v hv => ?_, fun n v hs => ?_, fun n v hs => ?_, fun v n hn => ?_⟩
   · by_cases hvw : v = w
     · subst hvw
       right
@@ -1186,5 +1188,171 @@ theorem iterL_inv (g : Graph) (hsym : EdgeSym g) (s : State) (w : Nat) (ho : PIn
     · have e2 := failSet r.1
       obtain ⟨f1, f2⟩ := failPc r.1 (by rw [he.workersLen]; exact hw1)
       exact ho1.enter hp1 (he.trans e2.weaken) (by rw [f2]; exact hpath) hlast hlen (Or.inl f1)
+
+theorem PInvO.fail {g : Graph} {sx : State} {w : Nat} (ho : PInvO g sx w)
+    (hp : PathOK (Adj (vis g sx)) (fun x => relevant g w x = true) g.root (sx.wd w).path) (hw : w < sx.workers.length) :
+    PInv g (sx.setWd w (fun d => { d with pc := .failed })) := by
+  have e2 : Eff w none sx (sx.setWd w (fun d => { d with pc := .failed })) := eff_setWd w none sx _
+  have ho2 : PInvO g (sx.setWd w (fun d => { d with pc := .failed })) w :=
+    ho.transfer e2.workersLen (fun x hx => by rw [← e2.hidden]; exact hx)
+      (fun v hv => by rw [e2.others v hv]; exact ⟨rfl, rfl⟩) (fun i => Or.inl rfl)
+  have hwd := wd_setWd_eq sx w (fun d => { d with pc := .failed }) hw
+  refine PInv.ofO ho2 (fun _ => Or.inr ?_) (by rw [hwd]; rfl)
+  rw [hwd]
+  exact hp.mono (fun a b => adj_vis_mono g sx _ (fun x hx => by rw [← e2.hidden]; exact hx) a b)
+
+theorem runLoop_inv (g : Graph) (hsym : EdgeSym g) (w : Nat) (fuel : Nat) (s : State) (evs : List Event)
+    (ho : PInvO g s w) (hp : PathOK (Adj (vis g s)) (fun x => relevant g w x = true) g.root (s.wd w).path)
+    (hw : w < s.workers.length) (hpc : fuel = 0 → (s.wd w).pc.node? = none) : PInv g (runLoop g w fuel s evs).1 := by
+  induction fuel generalizing s evs with
+  | zero => exact PInv.ofO ho (fun _ => Or.inr hp) (hpc rfl)
+  | succ fuel ih =>
+    unfold runLoop
+    dsimp only
+    have e0 : Eff w none s (s.setWd w (fun d => { d with pc := .loop })) := eff_setWd w none s _
+    have hwd := wd_setWd_eq s w (fun d => { d with pc := .loop }) hw
+    have ho0 : PInvO g (s.setWd w (fun d => { d with pc := .loop })) w :=
+      ho.transfer e0.workersLen (fun x hx => by rw [← e0.hidden]; exact hx)
+        (fun v hv => by rw [e0.others v hv]; exact ⟨rfl, rfl⟩) (fun i => Or.inl rfl)
+    have hp0 : PathOK (Adj (vis g (s.setWd w (fun d => { d with pc := .loop })))) (fun x => relevant g w x = true) g.root
+        ((s.setWd w (fun d => { d with pc := .loop })).wd w).path := by
+      rw [hwd]
+      exact hp.mono (fun a b => adj_vis_mono g s _ (fun x hx => by rw [← e0.hidden]; exact hx) a b)
+    obtain ⟨hl, hcont, hsusp, hraise⟩ := iterL_inv g hsym _ w ho0 hp0 (by rw [hwd]; rfl)
+    split
+    · next s1 e heq =>
+      rw [heq] at hcont hl
+      obtain ⟨a, b, c⟩ := hcont rfl
+      exact ih s1 _ a b (by rw [hl, e0.workersLen]; exact hw) (fun _ => c)
+    · next s1 e heq => rw [heq] at hsusp; exact hsusp (Or.inl rfl)
+    · next s1 e heq => rw [heq] at hsusp; exact hsusp (Or.inr rfl)
+    · next s1 e what heq => rw [heq] at hraise; exact hraise what rfl
+
+/-- a change that keeps every path, every pc up to the phase and wait counter, and removes marks at most -/
+theorem PInv.transfer {g : Graph} {s s' : State} (h : PInv g s)
+    (hlen : s'.workers.length = s.workers.length)
+    (hhid : ∀ x, x ∈ s'.hidden → x ∈ s.hidden)
+    (hwd : ∀ v, (s'.wd v).path = (s.wd v).path ∧ (s'.wd v).pc.node? = (s.wd v).pc.node? ∧
+      ((s.wd v).pc = .failed → (s'.wd v).pc = .failed) ∧ ((s.wd v).pc = .done → (s'.wd v).pc = .done))
+    (hmarks : ∀ i, (s'.nd i).started = (s.nd i).started ∨ (s'.nd i).started = none) : PInv g s' := by
+  have back : ∀ n v, (s'.nd n).started = some v → (s.nd n).started = some v := by
+    intro n v hs
+    rcases hmarks n with h' | h'
+    · rw [← h']; exact hs
+    · rw [h'] at hs; cases hs
+  refine ⟨hlen.trans h.wlen, fun v hvl => ?_, fun n v hs => h.markRel n v (back n v hs), fun n v hs => ?_, fun v n hn => ?_⟩
+  · obtain ⟨hp, _, _, hd⟩ := hwd v
+    unfold PathInv
+    rw [hp]
+    rcases h.path v (by rw [← hlen]; exact hvl) with h' | h'
+    · exact Or.inl ⟨h'.1, hd h'.2⟩
+    · exact Or.inr (h'.mono (fun a b => adj_vis_mono g s s' hhid a b))
+  · obtain ⟨_, hn, hf, _⟩ := hwd v
+    rcases h.markPc n v (back n v hs) with h' | h'
+    · left; rw [hn]; exact h'
+    · right; exact hf h'
+  · obtain ⟨hp, hn', _, _⟩ := hwd v
+    rw [hp]; rw [hn'] at hn
+    exact h.testOwn v n hn
+
+/-- leaving the copy `n` the worker was executing: afterwards it holds no mark -/
+theorem PInv.finish {g : Graph} {s s2 : State} {w n : Nat} (h : PInv g s) (hpcw : (s.wd w).pc.node? = some n)
+    (q : Qt w none s s2) :
+    PInvO g (finishTraverse s2 n w) w ∧
+    PathOK (Adj (vis g (finishTraverse s2 n w))) (fun x => relevant g w x = true) g.root ((finishTraverse s2 n w).wd w).path ∧
+    ((finishTraverse s2 n w).wd w).path.getLast? = some n ∧ 2 ≤ ((finishTraverse s2 n w).wd w).path.length ∧
+    w < (finishTraverse s2 n w).workers.length ∧ g.idIn w n = true := by
+  have qF : Qt w none s (finishTraverse s2 n w) := q.trans (qt_finishTraverse w none s2 n w)
+  obtain ⟨hid, hlast, hlen⟩ := h.testOwn w n hpcw
+  have hw : w < s.workers.length := lt_of_path_ne_nil s w (by intro h0; rw [h0] at hlen; simp at hlen)
+  have hhid : ∀ x, x ∈ (finishTraverse s2 n w).hidden → x ∈ s.hidden := by intro x hx; rw [← qF.hidden]; exact hx
+  have back : ∀ i v, ((finishTraverse s2 n w).nd i).started = some v → (s.nd i).started = some v := by
+    intro i v hs
+    rcases qF.marks i with h' | h' | h'
+    · rw [← h']; exact hs
+    · rw [h'] at hs; cases hs
+    · exact absurd h'.1 (by simp)
+  refine ⟨⟨by rw [qF.workers]; exact h.wlen, fun v hv hvl => ?_, fun i v hs => h.markRel i v (back i v hs), fun i v hs => ?_,
+    fun v hv i hn => ?_⟩, ?_, by rw [qF.wd w]; exact hlast, by rw [qF.wd w]; exact hlen, by rw [qF.workers]; exact hw, hid⟩
+  · unfold PathInv
+    rw [qF.wd v]
+    rcases h.path v (by rw [← qF.workers]; exact hvl) with h' | h'
+    · exact Or.inl h'
+    · exact Or.inr (h'.mono (fun a b => adj_vis_mono g s _ hhid a b))
+  · have hs0 := back i v hs
+    rw [qF.wd v]
+    refine ⟨?_, h.markPc i v hs0⟩
+    intro hvw
+    subst hvw
+    rcases h.markPc i v hs0 with h' | h'
+    · rw [hpcw] at h'
+      have hin : n = i := Option.some.inj h'
+      subst hin
+      -- the mark of `n` itself is gone
+      unfold finishTraverse at hs
+      by_cases hl : n < s2.nodes.length
+      · rw [nd_setNd_eq s2 n _ hl] at hs; cases hs
+      · have hd : s2.nd n = {} := by
+          unfold State.nd
+          rw [List.getD_eq_getElem?_getD, List.getElem?_eq_none (by omega)]; rfl
+        rw [nd_setNd_of_ge s2 n _ hl, hd] at hs; cases hs
+    · rw [h'] at hpcw; cases hpcw
+  · rw [qF.wd v] at hn ⊢
+    exact h.testOwn v i hn
+  · rw [qF.wd w]
+    rcases h.path w hw with h' | h'
+    · rw [h'.1] at hlen; simp at hlen
+    · exact h'.mono (fun a b => adj_vis_mono g s _ hhid a b)
+
+theorem continueAfter_inv (g : Graph) (hsym : EdgeSym g) (w n : Nat) (phase : Phase) (dir : Dir) (fuel : Nat) (hf : 0 < fuel)
+    (s : State) (ok : Bool) (evs : List Event) (h : PInv g s) (hpcw : (s.wd w).pc.node? = some n) :
+    PInv g (resumeTest.continueAfter g w n phase dir fuel s ok evs).1 := by
+  obtain ⟨hid, hlast, hlen⟩ := h.testOwn w n hpcw
+  have hw : w < s.workers.length := lt_of_path_ne_nil s w (by intro h0; rw [h0] at hlen; simp at hlen)
+  unfold resumeTest.continueAfter
+  dsimp only
+  split
+  · -- the test proper follows its creation pre-step
+    obtain ⟨a, b, ⟨uid, tag, c⟩, _⟩ := startTest_ok g s n w .main dir hw
+    refine h.transfer a.workersLen (fun x hx => by rw [← a.hidden]; exact hx) (fun v => ?_) (fun i => ?_)
+    · by_cases hvw : v = w
+      · subst hvw
+        refine ⟨b, by rw [c, hpcw]; rfl, fun hx => ?_, fun hx => ?_⟩
+        · rw [hx] at hpcw; cases hpcw
+        · rw [hx] at hpcw; cases hpcw
+      · rw [a.others v hvw]; exact ⟨rfl, rfl, fun hx => hx, fun hx => hx⟩
+    · rcases a.marks i with h' | h' | h'
+      · exact Or.inl h'
+      · exact Or.inr h'
+      · exact absurd h'.1 (by simp)
+  · have q2 : Qt w none s (if (phase == Phase.pre) = true then
+          s.setNd n (fun d => { d with results := d.results ++ (s.wd w).preResults.drop d.results.length })
+        else s) := by
+      split
+      · refine qt_setNd w none s n _ ?_
+        intro d; exact Or.inl rfl
+      · exact Qt.refl _ _ _
+    obtain ⟨hoF, hpF, hlF, hnF, hwF, _⟩ := h.finish hpcw q2
+    generalize hsF : finishTraverse (if (phase == Phase.pre) = true then
+          s.setNd n (fun d => { d with results := d.results ++ (s.wd w).preResults.drop d.results.length })
+        else s) n w = sF at hoF hpF hlF hnF hwF
+    obtain ⟨a, b, c, _⟩ := afterTraverse_ok (vis g sF) (edgeSym_vis g sF hsym) sF w n
+      ((s.wd w).path.getD ((s.wd w).path.length - 2) 0) dir hwF hlF hnF
+    generalize afterTraverse (vis g sF) sF w n ((s.wd w).path.getD ((s.wd w).path.length - 2) 0) dir = r at a b c
+    have hhid : ∀ x, x ∈ r.1.hidden → x ∈ sF.hidden := by intro x hx; rw [← a.hidden]; exact hx
+    have ho' : PInvO g r.1 w := hoF.transfer a.workersLen hhid (fun v hv => by rw [a.others v hv]; exact ⟨rfl, rfl⟩)
+      (fun i => by
+        rcases a.marks i with h' | h' | h'
+        · exact Or.inl h'
+        · exact Or.inr h'
+        · exact absurd h'.1 (by simp))
+    have hp' := pathOK_eff g sF r.1 w _ _ hhid hpF c
+    have hw' : w < r.1.workers.length := by rw [a.workersLen]; exact hwF
+    obtain ⟨s1, e2, fl⟩ := r
+    cases fl with
+    | raise what => exact ho'.fail hp' hw'
+    | cont => exact runLoop_inv g hsym w fuel s1 _ ho' hp' hw' (fun h0 => by omega)
+    | suspend => exact runLoop_inv g hsym w fuel s1 _ ho' hp' hw' (fun h0 => by omega)
+    | exit => exact runLoop_inv g hsym w fuel s1 _ ho' hp' hw' (fun h0 => by omega)
 
 end I2N.Trav
